@@ -109,6 +109,8 @@ const (
 	pUnknownID
 	pUnknownAssert
 	pBasicEmptySecret
+	pOwnBasicOtherID  // the case's client authenticates (Basic) while the form names another known client
+	pOwnAssertOtherID // the case's client authenticates (assertion) while the form names another known client
 	numPres
 )
 
@@ -119,6 +121,7 @@ var presNames = [numPres]string{
 	"assertion-other-clients-key", "assertion-wrong-audience", "assertion-sub-mismatch", "assertion-valid-without-type",
 	"assertion-valid+client_id", "mixed:other-basic+own-client_id", "mixed:other-assertion+own-client_id",
 	"unknown-client-basic", "unknown-client-id", "unknown-client-assertion", "basic-empty-secret",
+	"mixed:own-basic+other-client_id", "mixed:own-assertion+other-client_id",
 }
 
 const coreCells = numOps * numPres * numAuth * numGrantKinds
@@ -158,9 +161,58 @@ type spec struct {
 	OtherKid   bool `json:"other_kid"`
 	RevokeKind int  `json:"revoke_kind"`
 	SubjJWT    bool `json:"subject_token_is_jwt"`
+
+	// where the parameters sit: form body and / or URL query
+	GTPlace    int    `json:"-"` // grant_type
+	GTPlaceStr string `json:"grant_type_placement"`
+	Decoy      int    `json:"-"` // the other grant named when the two places disagree
+	DecoyName  string `json:"decoy_grant,omitempty"`
+	CredPlace  int    `json:"-"` // client_id / client_secret / client_assertion(_type)
+	CredStr    string `json:"credential_placement"`
+	ParamPlace int    `json:"-"` // the grant's own parameters
+	ParamStr   string `json:"parameter_placement"`
 }
 
 func (s *spec) has(g oidc.GrantType) bool { return slices.Contains(s.Grants, g) }
+
+// placement of grant_type
+const (
+	gtBody = iota
+	gtQuery
+	gtBoth
+	gtQueryTargetBodyDecoy
+	gtQueryDecoyBodyTarget
+)
+
+var gtPlaceNames = []string{"body", "query-only", "both-equal", "query=target,body=decoy", "query=decoy,body=target"}
+
+// placement of the other parameters
+const (
+	placeBody = iota
+	placeQuery
+	placeBoth
+	placeDifferent // client_secret only: the registered secret in one place, another one in the other
+)
+
+var placeNames = []string{"body", "query-only", "both-equal", "both-different"}
+
+func (s *spec) gtDiffers() bool {
+	return s.GTPlace == gtQueryTargetBodyDecoy || s.GTPlace == gtQueryDecoyBodyTarget
+}
+
+// badGrant: a grant this client must not be served (not registered for it, or not offered by the provider).
+func (s *spec) badGrant(o int) string {
+	g := opGrant[o]
+	switch {
+	case g == "":
+		return ""
+	case s.grantDisabled(g):
+		return "grant-disabled"
+	case !s.has(g):
+		return "grant-unregistered"
+	}
+	return ""
+}
 
 func (s *spec) cfgKey() string {
 	return fmt.Sprintf("post=%v,pkjwt=%v,refresh=%v,caps=%s", s.Post, s.PKJWT, s.Refresh, s.Caps)
@@ -263,6 +315,30 @@ func buildSpec(r *rand.Rand, idx int) *spec {
 	s.OtherKid = r.IntN(2) == 0
 	s.RevokeKind = r.IntN(5)
 	s.SubjJWT = r.IntN(3) != 0
+
+	// placement (body only in half of the cases)
+	s.GTPlace = []int{gtBody, gtBody, gtBody, gtBody, gtQuery, gtBoth, gtQueryTargetBodyDecoy, gtQueryDecoyBodyTarget}[r.IntN(8)]
+	decoys := []int{}
+	for _, o := range []int{opCode, opRefresh, opCC, opTE, opDevice} {
+		if o != s.Op {
+			decoys = append(decoys, o)
+		}
+	}
+	s.Decoy = decoys[r.IntN(len(decoys))]
+	if r.IntN(3) == 0 && s.Op != opCC {
+		s.Decoy = opCC // the one grant that needs no parameters of its own, i.e. the decoy that can actually be served
+	}
+	if !isTokenOp(s.Op) || s.Op == opEmpty {
+		s.GTPlace = gtBody
+	} else if s.Op == opBearer || s.Op == opJunk {
+		s.GTPlace %= 3 // same value wherever it sits
+	}
+	if s.gtDiffers() {
+		s.DecoyName = opNames[s.Decoy]
+	}
+	s.CredPlace = []int{placeBody, placeBody, placeBody, placeQuery, placeBoth, placeDifferent}[r.IntN(6)]
+	s.ParamPlace = []int{placeBody, placeBody, placeBody, placeQuery, placeBoth}[r.IntN(5)]
+	s.GTPlaceStr, s.CredStr, s.ParamStr = gtPlaceNames[s.GTPlace], placeNames[s.CredPlace], placeNames[s.ParamPlace]
 	return s
 }
 
@@ -351,6 +427,40 @@ func sortReasons(rs []string) {
 // Basic (or vice versa) are not refusal obligations; device authorization needs only a known client registered
 // for the device grant, but a wrong secret must be refused.
 func oracle(s *spec, p proof, bk int) verdict {
+	v := oracleOneGrant(s, p, bk)
+	if !s.gtDiffers() {
+		return v
+	}
+	// grant_type names two different grants (URL query vs. body). Which one is "the" grant of the request is not for
+	// the oracle to say: the grant obligations are judged by what was actually served (see execute), a priori only
+	// when both named grants are closed to the client.
+	keep := v.reasons[:0]
+	for _, r := range v.reasons {
+		if r != "grant-unregistered" && r != "grant-disabled" {
+			keep = append(keep, r)
+		}
+	}
+	v.reasons = keep
+	switch {
+	case p.claim == claimMixed:
+		// the authenticated other client may legitimately be served the other grant
+		v.reasons = nil
+		v.grey = append(v.grey, "grant_type-in-two-places:mixed-identity-not-judged")
+	case p.claim == claimOwn && (s.Op == opCC || s.Decoy == opCC):
+		// client_credentials has its own authentication rules (storage authenticates, public clients excluded)
+		v.reasons = nil
+		v.grey = append(v.grey, "grant_type-in-two-places:authentication-not-judged")
+	}
+	if p.claim == claimOwn {
+		if bt, bd := s.badGrant(s.Op), s.badGrant(s.Decoy); bt != "" && bd != "" {
+			v.reasons = append(v.reasons, bt)
+		}
+	}
+	sortReasons(v.reasons)
+	return v
+}
+
+func oracleOneGrant(s *spec, p proof, bk int) verdict {
 	var v verdict
 	add := func(r string) {
 		if !slices.Contains(v.reasons, r) {
